@@ -68,9 +68,9 @@ func secretOf(access string) (string, bool) {
 }
 
 var defects = []string{"no-auth", "empty-auth", "malformed", "unknown-key", "unknown-key-empty-secret", "wrong-secret", "old-secret", "sig-digit", "sig-form", "sig-zero",
-	"alter-header", "dup-header", "alter-query", "alter-query-raw", "alter-path", "alter-payload", "payload-hash", "date-skew", "scope-date", "scope-region",
+	"alter-header", "dup-header", "alter-query", "alter-query-raw", "alter-query-merge", "alter-path", "alter-path-reencode", "alter-payload", "payload-hash", "date-skew", "scope-date", "scope-region",
 	"scope-service", "scope-term"}
-var presignDefects = []string{"expired", "date-future", "value-delims", "expires-altered", "sig-digit", "sig-form", "sig-zero", "alter-query", "alter-path", "param-missing",
+var presignDefects = []string{"expired", "date-future", "value-delims", "expires-altered", "sig-digit", "sig-form", "sig-zero", "alter-query", "alter-query-merge", "alter-path", "alter-path-reencode", "param-missing",
 	"unknown-key", "wrong-secret", "old-secret", "scope-region"}
 
 // buildValid returns the signed, undamaged request.
@@ -256,6 +256,10 @@ func damage(r *s3c.Req, c caseA, now time.Time) {
 			r.Query = append(r.Query, s3c.KV{K: "versionId", V: "x"})
 		case "alter-path":
 			r.Path += "x"
+		case "alter-path-reencode":
+			reencodePath(r, c.Arg)
+		case "alter-query-merge":
+			mergeQueryPairs(r)
 		case "param-missing":
 			names := []string{"X-Amz-Date", "X-Amz-Credential", "X-Amz-Algorithm", "X-Amz-SignedHeaders", "X-Amz-Expires"}
 			drop := names[c.Arg%len(names)]
@@ -385,6 +389,10 @@ func damage(r *s3c.Req, c caseA, now time.Time) {
 		r.RawQuery, r.UseRawQ = q+pairs[c.Arg%len(pairs)], true
 	case "alter-path":
 		r.Path += "x"
+	case "alter-path-reencode":
+		reencodePath(r, c.Arg)
+	case "alter-query-merge":
+		mergeQueryPairs(r)
 	case "alter-payload":
 		b := append([]byte(nil), r.Payload()...)
 		r.BodyLen = 0
@@ -424,6 +432,56 @@ func damage(r *s3c.Req, c caseA, now time.Time) {
 		resign(r, cr, now, gw.Region, "s3")
 		r.Set("Authorization", strings.Replace(r.Get("Authorization"), "aws4_request", "aws4_reques", 1))
 	}
+}
+
+// reencodePath replaces one letter or digit of the path by the text of its percent escape ("k" -> "%6B", on the
+// wire "%256B"): decoded once - as every HTTP server does - the path names another bucket or key, decoded twice it
+// is the signed one again. (No letter or digit in the path: a character is appended, as alter-path does.)
+func reencodePath(r *s3c.Req, arg int) {
+	var at, inKey []int
+	slashes := 0
+	for i := 0; i < len(r.Path); i++ {
+		ch := r.Path[i]
+		if ch == '/' {
+			slashes++
+		}
+		if i > 0 && (ch >= 'a' && ch <= 'z' || ch >= 'A' && ch <= 'Z' || ch >= '0' && ch <= '9') {
+			at = append(at, i)
+			if slashes >= 2 {
+				inKey = append(inKey, i)
+			}
+		}
+	}
+	if len(at) == 0 {
+		r.Path += "x"
+		return
+	}
+	// mostly inside the key: a bucket name with a percent sign is refused as a name, whatever the signature
+	if len(inKey) > 0 && arg%4 != 0 {
+		at = inKey
+	}
+	i := at[(arg/4)%len(at)]
+	r.Path = r.Path[:i] + fmt.Sprintf("%%%02X", r.Path[i]) + r.Path[i+1:]
+}
+
+// mergeQueryPairs turns two parameters of the signed query ("a=1&b=2") into a single one whose name contains the
+// delimiters ("a=1&b" = "2", on the wire "a%3D1%26b=2"): printed without escaping the name, the query reads as
+// before, but the handlers no longer see either parameter. (Fewer than two parameters besides the X-Amz-* ones: a
+// parameter is added, as alter-query does.)
+func mergeQueryPairs(r *s3c.Req) {
+	var at []int
+	for i, kv := range r.Query {
+		if !strings.HasPrefix(kv.K, "X-Amz-") {
+			at = append(at, i)
+		}
+	}
+	if len(at) < 2 {
+		r.Query = append(r.Query, s3c.KV{K: "versionId", V: "x"})
+		return
+	}
+	a, b := r.Query[at[0]], r.Query[at[1]]
+	r.Query[at[1]] = s3c.KV{K: a.K + "=" + a.V + "&" + b.K, V: b.V}
+	r.Query = append(r.Query[:at[0]], r.Query[at[0]+1:]...)
 }
 
 // proofValid decides, independently of the gateway, whether the request as it will be
